@@ -22,6 +22,7 @@ func c06(c *Ctx) {
 	tb := ir.NewTB(c.P.IsRepoFunc, c.P.FuncKey)
 	tb.InlineMaxBlocks = 0
 	tb.ParamCallers = c.StaticCallers
+	tb.ParamCallersMulti = true
 
 	notDecided := map[string]string{
 		"delta":   "needs the relational fact dmax >= dmin",
@@ -55,7 +56,11 @@ func c06(c *Ctx) {
 					}
 					return s
 				}
-				an.Inline = func(f *ssa.Function) bool { return ir.FuncIs(f, PkgUtil, "Coerce") }
+				an.Inline = func(f *ssa.Function) bool {
+					// small pure helpers of the curves / util packages are evaluated in place (Coerce, sumOf, ...)
+					p := load_FuncPkgPath(f)
+					return (p == PkgUtil || p == PkgCurves) && len(f.Blocks) <= 12 && f.Name() != "Loop" && f.Name() != "CalculateInterpolatedCurveValue"
+				}
 				an.Assume = c.curveAssume(tb)
 				return an
 			}
